@@ -25,11 +25,12 @@ import (
 // ---- cases ----
 
 type Op struct {
-	K    string `json:"k"`              // acq | rel | tr | go | work | with (N = limit of a nested limiter) | batch (N callers of batch.Invoke on the shared context; free mode)
-	Mode string `json:"mode,omitempty"` // acq: "" | cancelled (ctx cancelled before the call) | nolimiter | cancel-later
-	Leak bool   `json:"leak,omitempty"` // acq: the body's end does not call release
-	N    int    `json:"n,omitempty"`    // rel / end of acq: number of calls of the release function (default 1)
-	Body []Op   `json:"body,omitempty"`
+	K     string `json:"k"`               // acq | rel | tr | go | work | with (N = limit of a nested limiter) | batch (N callers of batch.Invoke on the shared context; free mode)
+	Mode  string `json:"mode,omitempty"`  // acq: "" | cancelled (ctx cancelled before the call) | nolimiter | cancel-later
+	Leak  bool   `json:"leak,omitempty"`  // acq: the body's end does not call release
+	Panic bool   `json:"panic,omitempty"` // tr: f panics at its end; the panic is recovered around TemporarilyRelease and the goroutine goes on
+	N     int    `json:"n,omitempty"`     // rel / end of acq: number of calls of the release function (default 1)
+	Body  []Op   `json:"body,omitempty"`
 }
 
 type Case struct {
@@ -48,6 +49,7 @@ type Case struct {
 
 type limInfo struct {
 	ptr interface{}
+	tag int // which With call of the client program made it (0 = the base limiter)
 	cap int
 	ctx context.Context // a context whose innermost limiter this is
 }
@@ -80,10 +82,14 @@ type gstate struct {
 	acqLater  bool // the seed may cancel this Acquire while it waits
 	blkSeen   bool
 	lastPoint string
-	acqLid    int // limiter of the Acquire in progress
+	acqLid    int  // limiter of the Acquire in progress
+	acqTag    int  // harness-side name of the limiter the context of that Acquire resolves to
+	fPanic    bool // the function passed to TemporarilyRelease is unwinding by panic
 }
 
 type scope struct {
+	limTag int // innermost limiter of ctx: 0 base, k > 0 the k-th With executed, -1 none
+	limCap int
 	ctx    context.Context
 	tok    *tok // holder TemporarilyRelease(ctx) acts on
 	rel    func()
@@ -116,6 +122,7 @@ type env struct {
 	hids     map[interface{}][2]int // holder -> (limiter, holder index)
 	bf       *batch.Func
 	nBatch   int32
+	nWith    int
 	stats    map[string]int
 	points   map[string]bool
 	mirrorOK bool
@@ -171,16 +178,26 @@ func (e *env) checkCount(where string) {
 }
 
 // lidOf returns the component index of the limiter behind ptr, registering it on first sight. e.mu held.
-func (e *env) lidOf(ptr interface{}, capacity int, ctx context.Context) int {
+func (e *env) lidOf(ptr interface{}, capacity int, ctx context.Context, tag int) int {
+	if ptr != nil {
+		for i, l := range e.lims {
+			if l.ptr == ptr {
+				return i
+			}
+		}
+	}
 	for i, l := range e.lims {
-		if l.ptr == ptr {
+		if l.tag == tag && (l.ptr == nil || ptr == nil) {
+			if l.ptr == nil {
+				l.ptr = ptr
+			}
 			return i
 		}
 	}
 	if ctx != nil {
 		ctx = context.WithoutCancel(ctx) // the probes at quiescence must not see a cancellation of the client's context
 	}
-	e.lims = append(e.lims, &limInfo{ptr: ptr, cap: capacity, ctx: ctx})
+	e.lims = append(e.lims, &limInfo{ptr: ptr, tag: tag, cap: capacity, ctx: ctx})
 	e.nThreads = append(e.nThreads, 0)
 	e.nHolders = append(e.nHolders, 0)
 	return len(e.lims) - 1
@@ -248,7 +265,7 @@ func (e *env) runOps(gs *gstate, sc scope, ops []Op) {
 				}
 			}
 		case "tr":
-			e.tempRelease(gs, sc, op.Body)
+			e.tempRelease(gs, sc, op.Body, op.Panic)
 		case "go":
 			e.spawn(sc, op.Body)
 		case "acq":
@@ -258,6 +275,8 @@ func (e *env) runOps(gs *gstate, sc scope, ops []Op) {
 			nsc.ctx = concurrencylimiter.With(sc.ctx, op.N)
 			e.mu.Lock()
 			e.stats["nested-with"]++
+			e.nWith++
+			nsc.limTag, nsc.limCap = e.nWith, op.N
 			e.mu.Unlock()
 			e.runOps(gs, nsc, op.Body)
 		case "batch":
@@ -326,26 +345,38 @@ func maxi(a, b int) int {
 func (e *env) acquire(gs *gstate, sc scope, op Op) {
 	ctx := sc.ctx
 	outer := sc.tok
+	limTag, limCap := sc.limTag, sc.limCap
 	if op.Mode == "nolimiter" {
 		ctx = e.nolim
 		outer = nil
+		limTag, limCap = -1, 0
 	}
 	cctx, cancel := context.WithCancel(ctx)
 	if op.Mode == "cancelled" {
 		cancel()
 	}
 	e.mu.Lock()
-	gs.acqCtx, gs.acqCancl, gs.acqRes, gs.acqLater = cctx, cancel, 0, op.Mode == "cancel-later"
+	gs.acqCtx, gs.acqCancl, gs.acqRes, gs.acqLater, gs.acqTag = cctx, cancel, 0, op.Mode == "cancel-later", limTag
 	e.mu.Unlock()
 	nctx, rel := concurrencylimiter.Acquire(cctx)
+	live := cctx.Err() == nil
 	e.mu.Lock()
 	res := gs.acqRes
 	gs.acqCtx, gs.acqCancl = nil, nil
+	lid := gs.acqLid
+	if res != 1 && limTag >= 0 && live {
+		// Acquire returned on a live context that has a limiter, so the caller is between Acquire and release and
+		// counts against that limiter - although no token was seen being taken
+		res = 1
+		lid = e.lidOf(nil, limCap, cctx, limTag)
+		e.stats["acquire-returned-without-taking-a-token"]++
+		e.mirrorOK = false
+	}
 	e.mu.Unlock()
-	nsc := scope{ctx: nctx, tok: outer, rel: rel}
+	nsc := scope{ctx: nctx, tok: outer, rel: rel, limTag: limTag, limCap: limCap}
 	if res == 1 {
 		e.mu.Lock()
-		t := &tok{id: len(e.toks), lid: gs.acqLid, acquired: true, rel: rel}
+		t := &tok{id: len(e.toks), lid: lid, acquired: true, rel: rel}
 		e.toks = append(e.toks, t)
 		e.checkCount("after Acquire returned")
 		e.mu.Unlock()
@@ -368,7 +399,9 @@ func (e *env) release(sc scope) {
 	sc.rel()
 }
 
-func (e *env) tempRelease(gs *gstate, sc scope, body []Op) {
+type boomT struct{}
+
+func (e *env) tempRelease(gs *gstate, sc scope, body []Op, panics bool) {
 	t := sc.tok
 	if t != nil {
 		e.mu.Lock()
@@ -377,27 +410,48 @@ func (e *env) tempRelease(gs *gstate, sc scope, body []Op) {
 	}
 	depth := len(gs.stack)
 	gs.blkSeen = false
-	concurrencylimiter.TemporarilyRelease(sc.ctx, func() {
-		if e.ctl != nil && !gs.blkSeen {
-			// context without holder: block() was not entered
-			tid := e.newThread(0)
-			gs.stack = append(gs.stack, &mth{tid: tid, lid: 0, kind: "blk", pf: true, hid: -1})
-			e.emit(0, "LNewBlock None", 13, -1)
-			e.stats["tr-no-holder"]++
-		}
-		gs.blkSeen = false
-		e.runOps(gs, sc, body)
-	})
-	if e.ctl != nil && len(gs.stack) > depth {
-		// f returned in a block() call that had nothing to re-acquire
-		m := gs.stack[len(gs.stack)-1]
-		if m.kind == "blk" && m.pf {
-			e.emit(m.lid, fmt.Sprintf("LFRet %d", m.tid), 14, -1)
+	func() {
+		defer func() {
+			// the client recovers its own panic around TemporarilyRelease and goes on; anything else propagates
+			if p := recover(); p != nil {
+				if _, ok := p.(boomT); !ok {
+					panic(p)
+				}
+			}
+		}()
+		concurrencylimiter.TemporarilyRelease(sc.ctx, func() {
+			if e.ctl != nil && !gs.blkSeen {
+				// context without holder: block() was not entered
+				tid := e.newThread(0)
+				gs.stack = append(gs.stack, &mth{tid: tid, lid: 0, kind: "blk", pf: true, hid: -1})
+				e.emit(0, "LNewBlock None", 13, -1)
+				e.stats["tr-no-holder"]++
+			}
+			gs.blkSeen = false
+			e.runOps(gs, sc, body)
+			if panics {
+				e.mu.Lock()
+				e.stats["panic-in-f"]++
+				e.mu.Unlock()
+				gs.fPanic = true
+				panic(boomT{})
+			}
+		})
+	}()
+	if e.ctl != nil {
+		for len(gs.stack) > depth {
+			m := gs.stack[len(gs.stack)-1]
+			if m.kind == "blk" && m.pf {
+				// f ended in a block() call that had nothing to re-acquire
+				e.emit(m.lid, fmt.Sprintf("%s %d", map[bool]string{false: "LFRet", true: "LFPanic"}[gs.fPanic], m.tid), 14, -1)
+			} else {
+				// block() returned (or unwound) without going through its re-acquire
+				e.mirrorOK = false
+			}
 			gs.stack = gs.stack[:len(gs.stack)-1]
-		} else {
-			e.mirrorOK = false
 		}
 	}
+	gs.fPanic = false
 	if t != nil {
 		e.mu.Lock()
 		t.trDepth--
@@ -460,7 +514,7 @@ func (e *env) hookCtl(point string, args ...interface{}) {
 	case "limiter.acquire.select":
 		capacity, _ := args[2].(int)
 		e.mu.Lock()
-		lid := e.lidOf(args[0], capacity, gs.acqCtx)
+		lid := e.lidOf(args[0], capacity, gs.acqCtx, gs.acqTag)
 		gs.acqLid = lid
 		e.mu.Unlock()
 		tid := e.newThread(lid)
@@ -557,7 +611,12 @@ func (e *env) hookCtl(point string, args ...interface{}) {
 			bad()
 			break
 		}
-		e.emit(m.lid, fmt.Sprintf("LFRet %d", m.tid), 9, length)
+		if gs.fPanic {
+			e.emit(m.lid, fmt.Sprintf("LFPanic %d", m.tid), 9, length)
+			gs.fPanic = false
+		} else {
+			e.emit(m.lid, fmt.Sprintf("LFRet %d", m.tid), 9, length)
+		}
 		m.pend = "re1"
 	case "limiter.block.send": // original order: CAS succeeded, now the send
 		if m == nil || m.kind != "blk" || m.pend != "re1" {
@@ -648,7 +707,7 @@ func (e *env) fail(sig, det string) {
 
 // runCtl: the controller loop.  Returns true when every goroutine returned.
 func (e *env) runCtl() bool {
-	root := scope{ctx: e.base}
+	root := scope{ctx: e.base, limTag: 0, limCap: e.c.Limit}
 	for _, p := range e.c.Progs {
 		e.spawn(root, p)
 	}
@@ -765,7 +824,7 @@ func (e *env) hookFree(point string, args ...interface{}) {
 		switch point {
 		case "limiter.acquire.select":
 			capacity, _ := args[2].(int)
-			gs.acqLid = e.lidOf(args[0], capacity, gs.acqCtx)
+			gs.acqLid = e.lidOf(args[0], capacity, gs.acqCtx, gs.acqTag)
 		case "limiter.acquire.acquired":
 			gs.acqRes = 1
 		case "limiter.acquire.cancelled":
@@ -801,7 +860,7 @@ func (e *env) hookFree(point string, args ...interface{}) {
 
 // runFree: real goroutines; a watchdog resolves client-level waits the same way the controller does.
 func (e *env) runFree() bool {
-	root := scope{ctx: e.base}
+	root := scope{ctx: e.base, limTag: 0, limCap: e.c.Limit}
 	for _, p := range e.c.Progs {
 		e.spawn(root, p)
 	}
@@ -901,14 +960,14 @@ func runCase(c *Case, fixed bool) *result {
 		cancel()
 		verifhook.Set(func(point string, args ...interface{}) {
 			if point == "limiter.acquire.select" && len(e.lims) == 0 {
-				e.lidOf(args[0], c.Limit, e.base)
+				e.lidOf(args[0], c.Limit, e.base, 0)
 			}
 		})
 		_, rel := concurrencylimiter.Acquire(cctx)
 		rel()
 		verifhook.Set(nil)
 		if len(e.lims) == 0 {
-			e.lidOf(nil, c.Limit, e.base)
+			e.lidOf(nil, c.Limit, e.base, 0)
 		}
 	}
 	res := &result{env: e}
@@ -997,7 +1056,12 @@ func genBody(r *vh.Rng, depth int, budget *int) []Op {
 			} else {
 				b = []Op{{K: "work"}}
 			}
-			ops = append(ops, Op{K: "tr", Body: b})
+			if r.Chance(15) {
+				// f panics, the client recovers and keeps working inside its critical section
+				ops = append(ops, Op{K: "tr", Body: b, Panic: true}, Op{K: "work"})
+			} else {
+				ops = append(ops, Op{K: "tr", Body: b})
+			}
 		case "go-rel":
 			ops = append(ops, Op{K: "go", Body: []Op{{K: "rel", N: 1 + r.Intn(2)}}})
 		case "go-tr":
@@ -1353,7 +1417,7 @@ func main() {
 			if !e.mirrorOK {
 				// the hook sequence does not have the shape of the code the model describes: leave the
 				// events as they are, the replay will reject them
-				e.events = append(e.events, "(LFRet 99999, 0, None)")
+				e.events = append(e.events, "(0, LFRet 99999, 0, None)")
 			}
 			free := "None"
 			if res.free != nil {
